@@ -95,6 +95,21 @@ Fixpoint stream_ok (cmds dec : list command) : bool :=
   | CmdRaw _ :: r => stream_ok r dec
   end.
 
+(* A numeric parameter of 2^64 - 1 or more is beyond every range the standards define (codes, sub-parameters,
+   palette indices, colour components): whatever its digits, it means what any other undefined huge number
+   means.  The reference machine is therefore asked about the history with each such digit run replaced by
+   2^32 (an undefined code, an out-of-range index / component); shorter numbers are left as written. *)
+Definition flush_run (run : list N) : list N :=
+  let r := rev run in
+  if 18446744073709551615 <=? dec_value r then digits 4294967296 else r.
+Fixpoint clamp_long (l run : list N) : list N :=
+  match l with
+  | [] => flush_run run
+  | b :: r => if is_digit b then clamp_long r (b :: run) else flush_run run ++ b :: clamp_long r []
+  end.
+Definition clamp_item (h : hitem) : hitem :=
+  match h with HSgr p => HSgr (clamp_long p []) | HText cs => HText cs end.
+
 (* longest prefix of well-formed items *)
 Fixpoint wf_prefix (hist : list hitem) : list hitem :=
   match hist with
@@ -166,7 +181,7 @@ Definition c06_check (c : c06_case) : bool * bool :=
          machine, C06_semantics_recorded -- reproduces the implementation (`require_agree`). *)
       let holds :=
         chars_ok hist impl_cells
-        && rcells_prefix_eqb (ref_cells (abs_face f0) (wf_prefix hist)) impl_cells in
+        && rcells_prefix_eqb (ref_cells (abs_face f0) (wf_prefix (map clamp_item hist))) impl_cells in
       (agree, holds)
   | KDec bytes cuts impl_dec impl_whole =>
       (ocmds_eqb (option_map fst (decode_chunks st_init (chunk_at cuts bytes))) impl_dec,
